@@ -163,8 +163,15 @@ def run_driver(requests, timeout=900):
 class TokSpec:
     """a real py_stringmatching tokenizer plus the description the model needs"""
 
+    COUNTER = 0
+    NUMPY_FLAGS = False      # set by the generators: a share of the tokenizers gets its return_set flag as a numpy bool
+
     def __init__(self, kind, return_set=False, qval=2, padding=True, delims=None):
         self.kind, self.qval, self.padding, self.delims = kind, qval, padding, delims
+        TokSpec.COUNTER += 1
+        if TokSpec.NUMPY_FLAGS and TokSpec.COUNTER % 2 == 0:      # (the counter is reset at the start of every suite / oracle)
+            # a flag that came out of a numpy comparison / a DataFrame cell: np.False_ is falsy but `is not False`
+            return_set = np.bool_(return_set)
         if kind == 'ws':
             self.obj = WhitespaceTokenizer(return_set=return_set)
         elif kind == 'delim':
@@ -181,6 +188,26 @@ class TokSpec:
     def describe(self):
         return {'is_tokenizer': True, 'is_qgram': self.kind == 'qgram', 'qval': self.qval,
                 'return_set': bool(self.obj.get_return_set()), 'kind': self.kind, 'padding': self.padding, 'delims': self.delims}
+
+    def reconfigure(self, rng):
+        """change the configuration of the tokenizer OBJECT in place through its own setters (what a caller may do between
+        two calls): the description follows; anything remembered about the object under its old configuration is stale"""
+        c = rng.random()
+        if self.kind == 'qgram' and c < 0.4:
+            self.qval = rng.choice([q for q in (1, 2, 3) if q != self.qval])
+            self.obj.set_qval(self.qval)
+            return 'set_qval(%d)' % self.qval
+        if self.kind == 'qgram' and c < 0.6:
+            self.padding = not self.padding
+            self.obj.set_padding(self.padding)
+            return 'set_padding(%s)' % self.padding
+        if self.kind == 'delim' and c < 0.5:
+            self.delims = rng.choice([[','], [' '], [',', ' '], ['-']])
+            self.obj.set_delim_set(self.delims)
+            return 'set_delim_set(%r)' % (self.delims,)
+        new = not bool(self.obj.get_return_set())
+        self.obj.set_return_set(new)
+        return 'set_return_set(%s)' % new
 
     def tokens(self, s, mode):
         old = self.obj.get_return_set()
